@@ -282,3 +282,5 @@ MUTANTS = [
 ]
 
 RENAME_FUNCS = [(F, 'midi_to_note_sequence')]
+
+EXPLANATION += (' Escape analysis: positive findings (unbounded integer into an int32 field without a range guard - guards against constants within int32 narrow, sys.maxsize does not; raise of another class) are definite, forms outside the fragment are undecided; add(field=...) keywords are type-checked like stores. PAIR/total-is-max-end.')
